@@ -4,8 +4,10 @@
    reference [ref_diff]); the deciders `_diff_meta`, `_diff_hash_info`, `_diff_entry` are the
    GENERATED ones of Gen/IDiff.v over the generated records of Gen/PyTypes.v.  Proofs:
    Proofs/IndexDiffProofsBase.v (trie, decider table), IndexDiffBfs.v (closed form of the queue),
-   IndexDiffRefine.v (refinement, self diff, swap, shortcut), IndexDiffRenames.v, IndexDiffExamples.v
-   (non-vacuity: a concrete pair of indexes satisfying WfO / HashConsistent with a 7-change diff).
+   IndexDiffRefine.v (refinement, self diff, swap, shortcut), IndexDiffRenames.v, IndexDiffShallow.v
+   (closed form for any options, shallow = True), IndexDiffSwapRen.v (swap composed with rename
+   detection), IndexDiffExamples.v / IndexDiffExamples2.v (non-vacuity: a concrete pair of indexes
+   satisfying WfO / HashConsistent with a 7-change diff; its shallow and swapped-rename runs).
 
    Vocabulary.  [diff_core o old new fuel] is `_diff` (None = out of fuel; [fuel_for old new] always
    suffices for shallow = False), [diff] adds `with_renames` / `assert not meta_only`.  [≡ₚ] is
@@ -16,17 +18,19 @@
    children; demanded only when the shortcut can fire, [shortcut_on o]).
 
    Deviations from DESIGN section 6, C08:
-   * all theorems about the descent are for shallow = False (the DESIGN's scope note).  The
-     shallow = True statement ("reported keys are reported once and correctly; a directory whose
-     hash differs is always reported") is NOT proved; shallow runs are covered by the
-     correspondence and the oracle only.  C08_refl and C08_range hold for shallow = True too.
-   * C08_swap is proved for `_diff` ([diff_core]), for arbitrary - also ill-formed - indexes; its
-     composition with rename detection (that pairing is symmetric) is not proved.
+   * C08_refines / C08_no_hiding are for shallow = False (the DESIGN's scope note).  For shallow = True
+     (indeed for any options) C08_shallow proves: every key that is not below a hashed entry is
+     reported exactly once and exactly as the flat reference classifies it, no key is reported twice
+     at all (C08_keys_once_gen: any indexes, any options), and a top-level entry whose hash differs is
+     always reported (C08_shallow_hash_change_reported).  Below a hashed entry shallow runs are
+     deliberately inexact (children of a cut side are compared against "absent"); nothing is claimed there.
+   * C08_swap / C08_swap_renames are for shallow = False, arbitrary - also ill-formed - indexes.
    * attrs equality compares the eq=True fields only, so "equal" below is [meta_eqb] / [hashinfo_eqb]
      (equality of those fields), not Leibniz equality of the records.
-   * `with_unknown`, `roots`, lazy loading through a storage map are outside the model. *)
+   * `with_unknown` and lazy loading through a storage map are outside the model; `roots` other than [()]
+     is in the model and the correspondence, but has no exactness theorem (C08_roots_default_partial). *)
 From Coq Require Import NArith List Bool Permutation.
-From DvcData Require Import Base.Val Base.PyBase Gen.PyTypes Gen.IDiff Model.Trie Model.IndexDiff Proofs.IndexDiffProofsBase Proofs.IndexDiffBfs Proofs.IndexDiffRefine Proofs.IndexDiffRenames Proofs.IndexDiffExamples.
+From DvcData Require Import Base.Val Base.PyBase Gen.PyTypes Gen.IDiff Model.Trie Model.IndexDiff Proofs.IndexDiffProofsBase Proofs.IndexDiffBfs Proofs.IndexDiffRefine Proofs.IndexDiffRenames Proofs.IndexDiffExamples Proofs.IndexDiffShallow Proofs.IndexDiffSwapRen Proofs.IndexDiffExamples2.
 Import ListNotations.
 Open Scope N_scope.
 
@@ -173,6 +177,80 @@ Theorem C08_nonvacuous :
 Proof. exact (conj ex_wf_old (conj ex_wf_new (conj ex_hc eq_refl))). Qed.
 Print Assumptions C08_nonvacuous.
 
-(* NOT PROVED (C08_shallow_partial would be): for shallow = True, "reported keys are reported once and
-   correctly, and a directory whose hash differs is always reported".  Only C08_range and C08_refl
-   cover shallow runs; the harness oracle checks `C08:shallow-top-level-mismatch` on every case. *)
+(* ---- any options (shallow = True included) ----------------------------------------------------------------- *)
+(* the queue in closed form for ANY options and indexes: items stand for nodes (key, old side visible,
+   new side visible); no key is visited twice *)
+Theorem C08_closed_form_gen : forall o old new fuel,
+  (fuel_for old new <= fuel)%nat ->
+  NoDup (map fst (svisited o old new)) /\
+ exists cs, diff_core o old new fuel = Some cs /\
+            Permutation cs (flat_map (syield o old new) (svisited o old new)).
+Proof. intros o old new fuel Hf. split; [apply svisited_keys_NoDup | now apply diff_core_closed_gen]. Qed.
+Print Assumptions C08_closed_form_gen.
+
+(* no key is ever reported twice: any options, any (also ill-formed) indexes *)
+Theorem C08_keys_once_gen : forall o old new fuel cs,
+  (fuel_for old new <= fuel)%nat -> diff_core o old new fuel = Some cs -> NoDup (map change_key cs).
+Proof. exact diff_keys_once_gen. Qed.
+Print Assumptions C08_keys_once_gen.
+
+(* shallow = True (stated for any options): restricted to the keys that are not below a hashed entry
+   ([top_change]: no strict prefix of the key carries a hash on either side), the diff IS the flat
+   reference *)
+Theorem C08_shallow : forall o old new,
+  WfO old -> WfO new -> (shortcut_on o = true -> HashConsistent old new) ->
+  forall fuel, (fuel_for old new <= fuel)%nat ->
+  exists cs, diff_core o old new fuel = Some cs /\
+            NoDup (map change_key cs) /\
+            Permutation (filter (top_change old new) cs) (filter (top_change old new) (ref_diff o old new)).
+Proof. exact shallow_exact. Qed.
+Print Assumptions C08_shallow.
+
+(* a directory (any entry) not below a hashed entry whose hash differs is always reported, with both sides *)
+Theorem C08_shallow_hash_change_reported : forall o old new,
+  WfO old -> WfO new -> (shortcut_on o = true -> HashConsistent old new) ->
+  forall fuel cs k a b,
+  (fuel_for old new <= fuel)%nat -> diff_core o old new fuel = Some cs ->
+  o_meta_only o = false -> topk old new k = true ->
+  lookup (idx old) k = Some a -> lookup (idx new) k = Some b ->
+  diff_hash_info (e_hash_info a) (e_hash_info b) <> Unchanged ->
+  exists c, In c cs /\ change_key c = k /\ c_typ c <> Unchanged /\
+           c_old c = Some (k, norm_meta a) /\ c_new c = Some (k, norm_meta b).
+Proof. exact shallow_hash_change_reported. Qed.
+Print Assumptions C08_shallow_hash_change_reported.
+
+(* ---- swap composed with rename detection ----------------------------------------------------------------------- *)
+(* on change lists with distinct keys: rename detection commutes with the swap (the FIFO pairing by
+   sorted key is symmetric: [greedy_symmetric]; tuple order is a strict total order, so the sort is
+   canonical) *)
+Theorem C08_detect_renames_swap : forall cs cs',
+  NoDup (map change_key cs) -> Permutation cs' (map swap_change cs) ->
+  Permutation (detect_renames cs') (map swap_change (detect_renames cs)).
+Proof. exact detect_renames_swap. Qed.
+Print Assumptions C08_detect_renames_swap.
+
+(* through `diff`, with or without renames, arbitrary indexes: diff new old is the swap of diff old new
+   (a rename old-key -> new-key becomes new-key -> old-key) and nothing else *)
+Theorem C08_swap_renames : forall o old new fuel,
+  o_shallow o = false -> (fuel_for old new <= fuel)%nat ->
+  (renames_on o old new = true -> o_meta_only o = false) ->
+  exists l l', diff o old new fuel = DOk l /\ diff o new old fuel = DOk l' /\
+              Permutation l' (map swap_change l).
+Proof. exact diff_swap. Qed.
+Print Assumptions C08_swap_renames.
+
+(* ---- `roots` ------------------------------------------------------------------------------------------------------ *)
+(* `roots` is modelled ([diff_core_roots]: one queue item per root, `roots or [()]`) and tied to the code by
+   the correspondence `diff_roots` and the oracle `C08:roots-flat-mismatch` (prefix-free roots: the flat
+   reference at or below the roots).  Proved here only: the default is the core all theorems above are
+   about.  C08_roots_partial - the full statement, NOT proved: for prefix-free roots, well-formed
+   hash-consistent indexes, shallow = False,
+     diff_core_roots o old new rs fuel  ≡ₚ  flat_map cls (filter (fun k => existsb (fun r => is_prefix r k) rs) all_keys). *)
+Theorem C08_roots_default_partial : forall o old new fuel,
+  diff_core_roots o old new [] fuel = diff_core o old new fuel /\
+  diff_core_roots o old new [[]] fuel = diff_core o old new fuel /\
+  diff_roots o old new [] fuel = diff o old new fuel.
+Proof. exact diff_core_roots_default. Qed.
+Print Assumptions C08_roots_default_partial.
+
+(* NOT PROVED: exactness for `roots` other than [()] (see above); swap for shallow = True. *)
